@@ -426,7 +426,7 @@ func (x *runner) pagesOps(v int, reps int) {
 			}
 		}
 		if op == "pages" && api == "scanner" {
-			op = "pagesn" // the Scanner over pages: specification compared in the driver, theorem for Iter.Scan only so far
+			op = "pagesn" // the Scanner over pages (C04_pages_scanner)
 		}
 		toks := []string{op, api, fmt.Sprint(v), fmt.Sprint(pf), fmt.Sprint(len(rs))}
 		for _, r := range rs {
@@ -441,8 +441,8 @@ func (x *runner) pagesOps(v int, reps int) {
 //
 //   qone <api> <fv> <ndests> <logical response> WIRE <wire>      model-vs-code
 //
-// MapScanCAS is only driven with responses on which Iter.MapScan succeeds and that carry a column `[applied]`:
-// otherwise session.go:1389 `dest["[applied]"].(bool)` panics (proposed finding KF-C04-8, props/C04.findings.json).
+// MapScanCAS is driven also with responses on which Iter.MapScan fails and without a boolean `[applied]` column
+// (KF-C04-8, repaired: props/C04.fix-KF-C04-8.diff — an error is returned instead of a panic).
 
 func dumpQErr(err error) string {
 	if err == gocql.ErrNotFound {
@@ -453,7 +453,12 @@ func dumpQErr(err error) string {
 
 func execQone(w []string) string {
 	api, fv, nd := w[1], atoi(w[2]), atoi(w[3])
-	wire := unhex(w[len(w)-1])
+	var wires [][]byte
+	for i, t := range w {
+		if t == "WIRE" && i+1 < len(w) {
+			wires = append(wires, unhex(w[i+1]))
+		}
+	}
 	e, err := pagesGet(fv)
 	if err != nil {
 		return "session-error:" + err.Error()
@@ -462,7 +467,7 @@ func execQone(w []string) string {
 	sc := e.script
 	stmt := fmt.Sprintf("c04pages %d %d", vh.EnvSeed(), e.n)
 	sc.mu.Lock()
-	sc.stmt, sc.wires, sc.served = stmt, [][]byte{wire}, 0
+	sc.stmt, sc.wires, sc.served = stmt, wires, 0
 	sc.mu.Unlock()
 	var lg []call
 	ds := make([]interface{}, nd)
@@ -477,6 +482,10 @@ func execQone(w []string) string {
 	case "scancas":
 		applied, err := q.ScanCAS(ds...)
 		return fmt.Sprintf("ok applied:%v rows:[%s] end:%s", applied, fmtCalls(lg), dumpQErr(err))
+	case "mapscan":
+		m := map[string]interface{}{}
+		err := q.MapScan(m)
+		return fmt.Sprintf("ok map:%s end:%s", dumpTextMap(m), dumpQErr(err))
 	case "mapscancas":
 		m := map[string]interface{}{}
 		applied, err := q.MapScanCAS(m)
@@ -499,12 +508,30 @@ func execQone(w []string) string {
 	return "bad-op"
 }
 
+func dumpTextMap(m map[string]interface{}) string {
+	keys := make([]string, 0, len(m))
+	for k, v := range m {
+		var d string
+		switch x := v.(type) {
+		case []byte:
+			d = vh.Hex(x)
+		case string:
+			d = vh.Hex([]byte(x))
+		default:
+			d = fmt.Sprintf("?%T", v)
+		}
+		keys = append(keys, vh.Hex([]byte(k))+"="+d)
+	}
+	sort.Strings(keys)
+	return "{" + strings.Join(keys, ",") + "}"
+}
+
 var textIDs = []int{idBlob, idAscii, idText, idVarchar}
 
 func (x *runner) qoneOps(v int, reps int) {
 	g := x.g
 	for i := 0; i < reps; i++ {
-		api := []string{"scan", "scancas", "mapscancas"}[g.r.Intn(3)]
+		api := []string{"scan", "scancas", "mapscancas", "mapscan"}[g.r.Intn(4)]
 		class := fmt.Sprintf("qone/%s", api)
 		var b *body
 		nd := 0
@@ -538,18 +565,35 @@ func (x *runner) qoneOps(v int, reps int) {
 				} else {
 					class += "/first-column-any"
 				}
-			case "mapscancas":
+			case "mapscancas", "mapscan":
 				m = &meta{mode: 'G', ks: g.name(), tb: g.name()}
-				m.cols = append(m.cols, colSpec{name: []byte("[applied]"), t: nat(idBoolean)})
+				variant := g.r.Intn(8)
+				if api == "mapscancas" {
+					// since the repair of KF-C04-8 also: no [applied] column, an [applied] column that is not boolean
+					switch variant {
+					case 0:
+						class += "/no-applied-column"
+					case 1:
+						m.cols = append(m.cols, colSpec{name: []byte("[applied]"), t: nat(idVarchar)})
+						class += "/applied-not-boolean"
+					default:
+						m.cols = append(m.cols, colSpec{name: []byte("[applied]"), t: nat(idBoolean)})
+					}
+				}
 				for j, n := 0, g.r.Intn(4); j < n; j++ {
 					m.cols = append(m.cols, colSpec{name: []byte(fmt.Sprintf("c%d", j)), t: nat(textIDs[g.r.Intn(4)])})
+				}
+				if api == "mapscancas" && variant == 2 {
+					// a column without a Go type: Iter.MapScan returns false (C04_no_go_type_is_error)
+					m.cols = append(m.cols, colSpec{name: []byte("cx"), t: &typeDesc{kind: 'c', cls: []byte("x.Y")}})
+					class += "/column-without-go-type"
 				}
 			}
 			rows := g.rowsFor(m, 3)
 			for len(rows) == 0 && g.r.Intn(5) != 0 {
 				rows = g.rowsFor(m, 3)
 			}
-			if api != "scan" {
+			if api == "scancas" || api == "mapscancas" {
 				for _, r := range rows {
 					if len(r) > 0 && len(m.cols) > 0 && string(m.cols[0].name) == "[applied]" {
 						switch g.r.Intn(6) {
@@ -570,7 +614,7 @@ func (x *runner) qoneOps(v int, reps int) {
 			if api == "scancas" && nd > 0 {
 				nd--
 			}
-			if api == "mapscancas" {
+			if api == "mapscancas" || api == "mapscan" {
 				nd = 0
 			} else if g.r.Intn(8) == 0 {
 				nd += 1 - 2*g.r.Intn(2)
@@ -581,8 +625,24 @@ func (x *runner) qoneOps(v int, reps int) {
 			}
 			class += fmt.Sprintf("/rows%d", len(rows))
 		}
+		toks := []string{"qone", api, fmt.Sprint(v), fmt.Sprint(nd)}
+		// empty first pages that announce more: Iter.checkErrAndNotFound looks at the pages after them
+		if ne := g.r.Intn(4); ne < 3 && g.r.Intn(3) == 0 {
+			for j := 0; j <= ne; j++ {
+				em := g.baseMeta(3)
+				if b.kind == "RES" && b.rk == "ROWS" {
+					em = g.pageMeta(b.m)
+				}
+				ps := []byte{byte(j + 1)}
+				em.paging = &ps
+				er := g.resp(v, &body{kind: "RES", rk: "ROWS", m: em}, true)
+				toks = append(toks, er.toks()...)
+				toks = append(toks, "WIRE", vh.Hex(er.encFrame()))
+			}
+			class += fmt.Sprintf("/after-%d-empty-pages", ne+1)
+		}
 		r := g.resp(v, b, true)
-		toks := append([]string{"qone", api, fmt.Sprint(v), fmt.Sprint(nd)}, r.toks()...)
+		toks = append(toks, r.toks()...)
 		toks = append(toks, "WIRE", vh.Hex(r.encFrame()))
 		x.emit(strings.Join(toks, " "), class)
 	}
